@@ -160,6 +160,7 @@ func binarySession(run *ev.Run, unit int64, r *rand.Rand, dir, bin string, tlsd 
 		return exited, nil
 	}
 	portRetries := 0
+	var lockedUntil chan struct{} // set while another connection holds the write lock during a start
 	start := func() (*stubs.Backend, error) {
 		type accRes struct {
 			be  *stubs.Backend
@@ -182,6 +183,17 @@ func binarySession(run *ev.Run, unit int64, r *rand.Rand, dir, bin string, tlsd 
 					if out := tail(); strings.Contains(out, "failed to listen on") && portRetries < 5 {
 						portRetries++
 						run.Count("binary_listen_port_collisions_retried")
+						if exited, err = launch(); err != nil {
+							return nil, err
+						}
+						continue
+					}
+					// a binary that refuses to start while someone else holds the database's write lock fails
+					// fast, which no property forbids: what matters is that it comes up once the lock is gone
+					if lockedUntil != nil {
+						<-lockedUntil
+						lockedUntil = nil
+						run.Count("binary_exits_while_database_locked_then_restarted")
 						if exited, err = launch(); err != nil {
 							return nil, err
 						}
@@ -240,12 +252,16 @@ func binarySession(run *ev.Run, unit int64, r *rand.Rand, dir, bin string, tlsd 
 			if psql.NewPersistence(h).Init() == nil {
 				h.Close()
 				firstLock, firstHeld = holdWriteLock()
+				if firstHeld {
+					lockedUntil = firstLock
+				}
 			} else {
 				h.Close()
 			}
 		}
 	}
 	be, err := start()
+	lockedUntil = nil
 	if firstHeld {
 		<-firstLock
 	}
@@ -473,8 +489,12 @@ func binarySession(run *ev.Run, unit int64, r *rand.Rand, dir, bin string, tlsd 
 		if !syscallMode && k == 0 {
 			trace = append(trace, "restart while another connection holds the write lock for 7 s")
 			lockReleased, lockHeld = holdWriteLock()
+			if lockHeld {
+				lockedUntil = lockReleased
+			}
 		}
 		be, err = start()
+		lockedUntil = nil
 		if lockHeld {
 			<-lockReleased // whatever is judged from here on happens after the other connection let go
 		}
